@@ -160,6 +160,43 @@ func runC12(c *ctx) {
 			}
 		}
 	}
+	// closures and their context item: a (typed or untyped) lambda defined under one context and called under others
+	doc2 := map[string]interface{}{"name": "outer", "a": "xaybz", "inner": map[string]interface{}{"name": "inner", "deep": map[string]interface{}{"name": "deep"}},
+		"items": []interface{}{map[string]interface{}{"name": "i0"}, map[string]interface{}{"name": "i1"}}}
+	bodies := []string{"name & $string($x)", "$.name", "[name, $x]", "$$.name & name", "$length(name) + $x", "name"}
+	sigs := []string{"", "<n:s>", "<n>", "<x>", "<n?>", "<j:x>", "<n-:s>"}
+	callers := []string{"$f(1)", "inner.$f(1)", "inner.deep.$f(2)", "items.$f(3)", "items[1].$f(4)", "inner.(deep.$f(5))", "$map([1,2], $f)", "inner.$map([1], $f)", "1 ~> $f", "inner.(6 ~> $f)", "inner.$f()"}
+	definers := []string{"%s", "inner.(%s)", "items[0].(%s)"}
+	for _, body := range bodies {
+		for _, sg := range sigs {
+			for _, call := range callers {
+				for di, def := range definers {
+					if c.quick() && (di+len(body)+len(call))%3 != 0 {
+						continue
+					}
+					lam := "function($x)" + sg + "{" + body + "}"
+					prog := "(" + fmt.Sprintf(def, "$f := "+lam+"; $g := $f; ("+call+")") + ")"
+					c.diffEval(prog, doc2, "closure-context")
+				}
+			}
+		}
+	}
+	// chains bound to variables and extended more than once (a derived chain must not disturb its siblings)
+	unary := []string{"function($v){$v + 1}", "function($v){$v * 2}", "function($v){$v * $v}", "function($v){\"k1:\" & $v}", "function($v){\"k2:\" & $v}", "function($v){[$v]}", "$string", "function($v){-$v}"}
+	for i := 0; i < c.scale(600, 10000) && !c.tooMany(); i++ {
+		k := 1 + r.intn(6)
+		var defs []string
+		for j := 0; j < 8; j++ {
+			defs = append(defs, fmt.Sprintf("$u%d := %s", j, unary[j]))
+		}
+		base := "$u" + fmt.Sprint(r.intn(3))
+		for j := 1; j < k; j++ {
+			base += " ~> $u" + fmt.Sprint(r.intn(3))
+		}
+		prog := "(" + strings.Join(defs, "; ") + "; $base := " + base + "; $p := $base ~> $u3; $q := $base ~> $u4; $r := $p ~> $u5; $s := $base ~> $u" + fmt.Sprint(r.intn(8)) +
+			"; [$p(3), $q(3), $r(3), $s(3), $base(3), $p(4)])"
+		c.diffEval(prog, doc, "chain-extension")
+	}
 	// partials and chains, random
 	fns := []string{"function($x, $y, $z){[$x, $y, $z]}", "$append", "$substring", "$pad", "function($x){$x}", "$sum", "$string", "function(){7}", "$power"}
 	for i := 0; i < c.scale(3000, 60000) && !c.tooMany(); i++ {
